@@ -192,4 +192,37 @@ Proof.
   rewrite (stepw_eq shuf (S f) Deliver w4' RNone w5 _ _ D4' G5).
   repeat split; try reflexivity. cbn. rewrite Hxi. reflexivity.
 Qed.
+
+(* ---- seek within the current track (playing or paused) *)
+Theorem seek_agreement f p c len w :
+  settled_on w c -> pstate w <> Stopped -> World.tl w <> [] ->
+  len_of w (trk c) = Some len -> 0 <= p -> p <= len ->
+  let w' := run_world shuf (S f) w [Seek p; Deliver] in
+  current w' = Some c /\ pstate w' = pstate w /\ pending w' = None /\ pending_position w' = None
+  /\ queue w' = [] /\ a_uri w' = a_uri w /\ a_state w' = a_state w /\ a_pos w' = p
+  /\ events w' = EvSeeked p :: events w /\ World.tl w' = World.tl w.
+Proof.
+  intros [Hq Hp Hpp Hsa Hsp Hpf Hc Hb Ha] Hst Htl Hlen Hp0 Hle.
+  pose proof (seek_run shuf f p c len w Hp0 Htl Hst Hc Hp Hlen Hle Hb) as E1.
+  set (w1 := fx_seek p w) in *.
+  assert (G1 : get_time_position w1 = (Ok p, w1)) by (apply gtp_pp_run; reflexivity).
+  cbv zeta. rewrite run_world_cons.
+  assert (R1 : run_op shuf (S f) (Seek p) w = (Ok (RBool true), w1)).
+  { unfold run_op. rewrite (bind_ok _ _ w true w1 E1). reflexivity. }
+  rewrite (stepw_eq shuf (S f) (Seek p) w (RBool true) w1 _ _ R1 G1).
+  rewrite run_world_cons.
+  assert (Q1 : queue w1 = [NPositionChanged p]) by (unfold w1, fx_seek; cbn; rewrite Hq; reflexivity).
+  pose proof (deliver_run shuf (S f) _ _ w1 Q1) as D1. cbv beta iota in D1.
+  set (w1q := w1 <| queue := [] |>) in *.
+  assert (S1 : on_position_changed w1q = (Ok tt, fx_seeked p w1q)).
+  { apply position_changed_seek_run; [reflexivity|exact Hsp]. }
+  rewrite S1 in D1.
+  set (w2 := fx_seeked p w1q) in *.
+  assert (G2 : get_time_position w2 = (Ok (a_pos w2), fx_gtp w2)).
+  { apply (gtp_run w2 c); [reflexivity|exact Hc|exact Hb]. }
+  rewrite (stepw_eq shuf (S f) Deliver w1 RNone w2 _ _ (run_op_bind_none _ w1 tt w2 D1) G2).
+  unfold run_world. cbn [fold_left].
+  repeat split; try reflexivity; assumption.
+Qed.
+
 End P.
